@@ -473,8 +473,9 @@ impl BloomFilter {
 
             // Handle "dirty" state: 0xFFFFFFFFFFFFFFFF indicates bits need recounting
             const DIRTY_BITS_VALUE: u64 = 0xFFFFFFFFFFFFFFFF;
+            let counted: u64 = bit_array.iter().map(|w| w.count_ones() as u64).sum();
             if raw_num_bits_set == DIRTY_BITS_VALUE {
-                num_bits_set = bit_array.iter().map(|w| w.count_ones() as u64).sum();
+                num_bits_set = counted;
             } else {
                 let raw_num_words_set = raw_num_bits_set.div_ceil(64) as usize;
                 if raw_num_words_set > num_words {
@@ -482,6 +483,13 @@ impl BloomFilter {
                         "invalid num_bits_set: expected <= {}, got {}",
                         num_words * 64,
                         raw_num_bits_set
+                    )));
+                }
+                // The stored count is used as is by `invert` and by every later insert: it must be
+                // the number of bits that are actually set.
+                if raw_num_bits_set != counted {
+                    return Err(Error::deserial(format!(
+                        "invalid num_bits_set: the bit array has {counted} bits set, got {raw_num_bits_set}"
                     )));
                 }
                 num_bits_set = raw_num_bits_set;
